@@ -18,13 +18,16 @@ import (
 func checkRoundTrip(rec *stats.Recorder, c valCase) (msg string, known string) {
 	t := typeByName(c.Type)
 	v := c.Value
-	rv := dyn.Build(S, t, v, dyn.BuildOpts{})
+	rv := dyn.Build(S, t, v, dyn.BuildOpts{EmptyAsNil: c.NilEmpty})
 	if d := aval.Diff(v, dyn.Extract(S, t, rv), ""); d != "" {
 		panic("reflection bridge self-test failed (harness bug, not a verdict): " + d + " for " + c.Type + " " + v.Canon())
 	}
 	classes := labelsOf(t, v, c.Format)
 	if c.AfterFailure > 0 {
 		classes = append(classes, "after_failed_marshal")
+	}
+	if c.NilEmpty {
+		classes = append(classes, "encoder_given_nil_collections")
 	}
 	rec.Case(classes...)
 	if nonTrivial(classes) {
@@ -50,18 +53,23 @@ func checkRoundTrip(rec *stats.Recorder, c valCase) (msg string, known string) {
 	if err != nil {
 		return fmt.Sprintf("encoding a valid value failed: %v", err), ""
 	}
-	fail := func(what string) (string, string) {
-		if (c.Format == "json" || c.Format == "pretty") && hasInvalidUTF8(v) && kf.Open("KF-C01-json-non-utf8") {
-			return "", "KF-C01-json-non-utf8"
+	fail := func(what string, rejected bool) (string, string) {
+		// signature of KF-C01-json-non-utf8 on this path: the only way the U+FFFD substitution makes the decoder reject its own
+		// output is a fixed leaf that grew (each offending byte became three) or two map keys that became equal; a panic is
+		// never part of the finding
+		if rejected && (c.Format == "json" || c.Format == "pretty") && kf.Open("KF-C01-json-non-utf8") {
+			if _, changed, collision := sanitizeUTF8(v); changed && (collision || hasInvalidUTF8Fixed(v)) {
+				return "", "KF-C01-json-non-utf8"
+			}
 		}
 		return fmt.Sprintf("%s\n type=%s format=%s\n document=%s\n value=%s", what, c.Type, c.Format, hx.Q(doc), want.Canon()), ""
 	}
 	var dv = rv
 	if p, pv, st := hx.Try(func() { dv, err = decode(t, doc, c.Format) }); p {
-		return fail(fmt.Sprintf("decoder panicked on the encoder's own output: %v\n%s", pv, st))
+		return fail(fmt.Sprintf("decoder panicked on the encoder's own output: %v\n%s", pv, st), false)
 	}
 	if err != nil {
-		return fail(fmt.Sprintf("decoding the encoder's own output failed: %v", err))
+		return fail(fmt.Sprintf("decoding the encoder's own output failed: %v", err), true)
 	}
 	got := dyn.Extract(S, t, dv)
 	if d := aval.Diff(want, got, ""); d != "" {
@@ -131,6 +139,7 @@ func genValCase(rt *rapid.T, g *aval.Gen, allFormats bool) valCase {
 	if rapid.IntRange(0, 3).Draw(rt, "after_failure") == 0 {
 		c.AfterFailure = rapid.IntRange(1, 3).Draw(rt, "failed_entries")
 	}
+	c.NilEmpty = rapid.IntRange(0, 3).Draw(rt, "nil_empty") == 0
 	return c
 }
 
